@@ -120,9 +120,44 @@ impl Prop for C17 {
     }
 }
 
+/// A router that never had a route is shut down (from 1..4 threads); routes offered afterwards
+/// are dropped without ever being invoked, and further shutdown calls return.
+fn fresh_router_shutdown(case: &Case) -> Result<Outcome, Failure> {
+    let proxy = Arc::new(RouterProxy::new());
+    let hs: Vec<_> = (0..case.shutdown_threads.max(1))
+        .map(|_| {
+            let p = proxy.clone();
+            std::thread::spawn(move || p.shutdown())
+        })
+        .collect();
+    match sandbox::watched(move || hs.into_iter().map(|h| h.join().is_ok()).collect::<Vec<_>>()) {
+        Ok(oks) => ensure!(oks.iter().all(|x| *x), "stop:panicked", "shutdown() of a router without routes panicked: {:?}", crate::take_panics()),
+        Err(h) => return Err(sandbox::hang_failure("stop:deadlock", "shutdown() of a router that never had a route did not return", h)),
+    }
+    let mut late = vec![];
+    for _ in 0..1 + (case.jitter % 3) {
+        let (t, cb) = callback_route(&proxy)?;
+        let _ = t.send(Node::U32(3));
+        ensure!(cb.fired.load(SeqCst) != 0, "stop:route-after-shutdown-kept", "a route offered after shutdown() of a router that had no routes before was not dropped by add_route");
+        late.push((t, cb));
+    }
+    let p2 = proxy.clone();
+    if let Err(h) = sandbox::watched(move || p2.shutdown()) {
+        return Err(sandbox::hang_failure("stop:deadlock", "a second shutdown() call never returned", h));
+    }
+    std::thread::sleep(Duration::from_millis(2));
+    for (_, cb) in &late {
+        ensure!(cb.invoked.lock().unwrap().is_empty(), "stop:route-after-shutdown-invoked", "a route offered after shutdown() was invoked");
+    }
+    Ok(Outcome::new(true, format!("shutdown x{} of a router without routes, then add_route", case.shutdown_threads.max(1))).with("routes", 0))
+}
+
 fn run(case: &Case) -> Result<Outcome, Failure> {
     let wd = Duration::from_secs(sandbox::watchdog_secs());
     SLOW_MS.store(case.slow_ms as u64, SeqCst);
+    if case.routes.is_empty() && case.shutdown_threads > 0 && case.adders == 0 && case.jitter % 2 == 0 {
+        return fresh_router_shutdown(case);
+    }
     let proxy = Arc::new(RouterProxy::new());
     let mut proxy_kept: Option<Arc<RouterProxy>> = None;
     // sentinel callback route: always present, so that there is always a handler whose drop marks
